@@ -10,7 +10,10 @@ PROP = {
             "w1 R w2 L x / w1 R L w2 L / w1 R F w2 L / w1 L R w2 x L for every pair of those writes; (4) random lists "
             "of up to 12 operations whose writes mix every class of unicode.IsSpace, near misses (U+200B, U+180E, "
             "U+FEFF), text and invalid UTF-8 (lone lead/continuation bytes, overlong, surrogate). All driven against "
-            "the real trimWriter through the verif hook and compared call by call with TW.step; distinct by case line",
+            "the real trimWriter through the verif hook and compared call by call with TW.step; distinct by case line. "
+            "hyphens: generated templates (tags, objects, raw/comment/capture blocks, loops; literal text padded with "
+            "several kinds of whitespace, adjacent text items merged into one literal text) with every subset (<=6 "
+            "hyphen positions) or 48 random subsets of the hyphens present, each rendered by the real engine and by the model",
     "trusted_base": COMMON_TB + ["unicode.IsSpace / utf8.DecodeRune / DecodeLastRune are modelled (Liquid/Utf8.lean) and compared on every tw case"],
     "assumptions": ["TW.step describes render/trimwriter.go: checked by the tw stream on every run",
                     "the erasure and adjacency laws are stated for writes that are valid UTF-8 (ValidOps); on invalid "
@@ -45,7 +48,10 @@ TEXT = {
             "concatenation of the underlying write calls, one call at most per operation, only TrimLeft can issue an "
             "empty call. Each run compares TW.step with the real trimWriter call by call and evaluates on the real "
             "output: identity without trims (all bytes), whitespace-erasure and whitespace-deletion (valid UTF-8), and "
-            "every adjacency theorem as a metamorphic relation between two runs of the real trimWriter.",
+            "every adjacency theorem as a metamorphic relation between two runs of the real trimWriter (faces-text laws for "
+            "every text, blank included; trimLeft-sees-last-write-only on all byte strings: output = output up to the "
+            "earlier write + the stripped adjacent text + output of the rest). Template level (hyphens stream): erasure, "
+            "and, when every hyphen faces literal text, equality with the hyphen-free template whose adjacent text is stripped.",
     "design_ref": "DESIGN.md 6 C13",
     "note": NOTE + "Template-level lifting (hyphen_ops, hyphen_erasure, hyphen_faces_text over rendered templates) is added with the render model.",
     "technique": "Lean 4 proof (simulation invariant and commit lemma over operation lists, generic alphabet; UTF-8 codec "
